@@ -5,6 +5,7 @@ exit status compared original-vs-formatted under interp.Runner (worker subproces
 Proof: coq/Props/C03.v over coq/Syntax/FormatSem.v (core fragment): norm t = norm t' -> sem t = sem t'.
 Code leg: the real printer's output re-parses to a norm-equal tree on generated fragment programs (checked in the kernel)."""
 import json
+import time
 import re
 
 
@@ -34,21 +35,23 @@ def frag_leg(ctx, rows):
 
 def run(ctx):
     ctx.coq_props()
+    ctx.extra.setdefault("timing", {})["props"] = round(time.time() - ctx.t0, 1)
     quick = ctx.tier == "quick"
     binp = ctx.go_build("c03")
     if not binp:
         return
-    nfrag = 400 if quick else 6000
-    ngen = 120 if quick else 4000
+    nfrag = 300 if quick else 6000
+    ngen = 60 if quick else 3000
     rc, frows, err = ctx.jsonl([binp, "frag", "-seed", str(ctx.seed), "-n", str(nfrag)])
     if rc != 0 or not frows:
         ctx.broken.append(("harness-run", "c03 frag failed rc=%d %s" % (rc, err[-800:])))
         return
     frag_leg(ctx, frows)
+    ctx.extra.setdefault("timing", {})["frag"] = round(time.time() - ctx.t0, 1)
     ctx.count(len(frows), [("frag", r["src"]) for r in frows if r.get("fmt") and r["fmt"] != r["src"]])
     for r in frows[:2]:
         ctx.sample({"fragment_program": r["src"][:300], "variant": r["variant"], "formatted": (r.get("fmt") or "")[:300]})
-    rc, rows, err = ctx.jsonl([binp, "search", "-seed", str(ctx.seed), "-n", str(ngen)], timeout=5000)
+    rc, rows, err = ctx.jsonl([binp, "search", "-seed", str(ctx.seed), "-n", str(ngen), "-tier", ctx.tier], timeout=20000)
     if rc != 0 or not rows:
         ctx.broken.append(("harness-run", "c03 search failed rc=%d %s" % (rc, err[-800:])))
         return
